@@ -22,7 +22,8 @@
 namespace {
     using namespace cdsv;
 
-    struct Obj { uint64_t token; uint64_t pad[2]; };
+    // the destructor wipes the token: a pool that runs it on an object somebody holds (again) is seen by the holder's token check
+    struct Obj { uint64_t token; uint64_t pad[2]; ~Obj() { token = 0xDEADDEADDEADDEADull; poison_barrier(); } };
     struct Small { uint64_t token; explicit Small( uint64_t t ) : token( t ) {} };
 
     enum : uint32_t { WHO_MAIN = 100, WHO_TRANSIT = 200 };
